@@ -16,6 +16,7 @@ func init() {
 		ID:  "C20",
 		Run: runC20,
 		Meta: an.Meta{
+			Technique: "exhaustiveness, child-coverage and nil-belief lint over the type-checked AST of utils/visitor.go against node.go",
 			Explanation: "Structural proof obligations on utils/visitor.go against the AST declared in node.go: (C20.cases) every exported node type the parser " +
 				"constructs has a case in VisitorContext.Visit and only the default arm panics; (C20.fields) the helper selected for a type passes every child " +
 				"field (Node/Expression/pointer-to-node/slices thereof/block parameters' expressions, incl. promoted fields and the unexported catch node's children) " +
